@@ -66,6 +66,10 @@ CHECKS = {
                 text="Pairs (B, mutant) that the independent interpreter can tell apart on a concrete state must be answered 'not equal' by compare_asm_block_asm_format; every generated block must compare equal to itself; the external-checker adapter's rendering must decode to exactly the segments of both blocks and its verdict may be true only for undistinguished pairs.",
                 note="distinguishability decided on >= 60 states by vf/evm.py (mutants without witness are discarded, counted); out-of-domain-only differences are not used as witnesses",
                 ref="DESIGN.md section 3 C05"),
+    "C11": dict(level="exploration", technique="model-based stateful testing (Hypothesis RuleBasedStateMachine) of optimize / replay / tamper histories; oracles: byte identity for exact replay; for tampered logs 'error or equivalent to the input' decided by the reference interpreter",
+                text="Machines draw a contract and options, optimize with a log, replay it untouched (must reproduce the file byte for byte) and replay single and double tamperings of the log from 13 operators; an accepted tampered log must yield blocks equivalent to the input blocks on concrete states.",
+                note="trusts vf/evm.py; logged runs use the deterministic greedy back-end; both runs use the same criterion and split policy as the README requires",
+                ref="DESIGN.md section 3 C11"),
 }
 
 NOT_YET = {}
